@@ -75,6 +75,7 @@ type Gen struct {
 	rxUsed    map[string]*rxInfo
 	notes     []string
 	unsupported string
+	zarrs []string
 	ifaceHook func(sym, method string, i int, sorts []string, rsort string)
 }
 
@@ -117,7 +118,8 @@ func (g *Gen) declConst(name, sort_ string, bound []boundVar) Term {
 // defConst defines name := term (as a macro); with bound vars it is a function of them.
 func (g *Gen) defConst(name, sort_ string, term Term, bound []boundVar) Term {
 	if len(bound) == 0 {
-		g.declare(fmt.Sprintf("(define-fun %s () %s %s)", name, sort_, term))
+		g.declare(fmt.Sprintf("(declare-fun %s () %s)", name, sort_))
+		g.declare(fmt.Sprintf("(assert (= %s %s))", name, term))
 		return name
 	}
 	var ps, as []string
@@ -322,7 +324,7 @@ func (g *Gen) zero(t types.Type) Term {
 			return "any_nil"
 		}
 	case *types.Array:
-		return fmt.Sprintf("((as const %s) %s)", s, g.zero(tt.Elem()))
+		return g.constArray("Int", tt.Elem())
 	case *types.Map:
 		return g.zeroNamed(s)
 	}
@@ -345,6 +347,19 @@ func (g *Gen) nilSlice(sort_ string) Term {
 		g.funSeen[name] = true
 		g.sortDecl = append(g.sortDecl, fmt.Sprintf("(declare-fun %s () %s)", name, sort_))
 		g.sortDecl = append(g.sortDecl, fmt.Sprintf("(assert (and (nil_%s %s) (= (len_%s %s) 0) (= (off_%s %s) 0)))", sort_, name, sort_, name, sort_, name))
+	}
+	return name
+}
+
+// constArray: the all-zero array over elem type t (a named constant with a defining axiom;
+// `(as const …)` needs a value argument in cvc5 and our zero terms are not always values).
+func (g *Gen) constArray(keySort string, t types.Type) Term {
+	es := g.sortOf(t)
+	z := g.zero(t)
+	name := "zarr_" + sanitize(keySort) + "_" + sanitize(es)
+	if !g.funSeen[name] {
+		g.funSeen[name] = true
+		g.zarrs = append(g.zarrs, fmt.Sprintf("(declare-fun %s () (Array %s %s))\n(assert (forall ((i %s)) (! (= (select %s i) %s) :pattern ((select %s i)))))", name, keySort, es, keySort, name, z, name))
 	}
 	return name
 }
@@ -456,6 +471,9 @@ func (g *Gen) script(extra []string) string {
 	}
 	if e, ok := g.lits[""]; ok {
 		fmt.Fprintf(&b, "(assert (forall ((s Str)) (! (=> (= (str_len s) 0) (= s %s)) :pattern ((str_len s)))))\n", e)
+	}
+	for _, d := range g.zarrs {
+		b.WriteString(d + "\n")
 	}
 	for _, d := range g.decls {
 		b.WriteString(d + "\n")
